@@ -27,7 +27,7 @@ theorem fresh_refinement_current (ops : List Op) (hpub : ∀ op ∈ ops, op.isPu
     (hok : NoRaise config World.empty ops)
     (i : Nat) (inst : Inst) (hi : (run config World.empty ops).insts[i]? = some inst) (q : String) :
     answer config (run config World.empty ops) i q = answer config (build inst.elts) 0 q :=
-  (fresh_refinement config memoised_subset_cleared add_invalidates remove_invalidates override_detaches
+  (fresh_refinement config memoised_subset_cleared add_invalidates add_multi_invalidates remove_invalidates override_detaches
     ops hpub hok i inst hi).1 q
 
 end Lcapy.C16
